@@ -439,6 +439,8 @@ class RTCMMessage:
         """
 
         try:
-            return "MSM" in RTCM_MSGIDS[self.identity]
+            desc = RTCM_MSGIDS[self.identity]
+            # message numbers merely reserved for MSM carry no MSM content
+            return "MSM" in desc and not desc.startswith("Reserved")
         except KeyError:
             return False
